@@ -23,7 +23,7 @@ def parse_case(case):
 
 
 KNOWN_LABELS = {"cb_fetch_add", "cb_lock", "cb_fetch_sub", "cb_interrupt", "cbn_lock", "cc_fetch_add", "cw_load", "cw_wait",
-                "cw_cas", "dl_load", "dl_cas", "dl_fetch_add", "dl_fetch_and", "dl_wload", "dl_wwait", "pc_store", "pc_lock",
+                "cw_cas", "dl_load", "dl_cas", "dl_fetch_add", "dl_fetch_and", "dl_wload", "dl_wwait", "fx_wake", "pc_store", "pc_lock",
                 "pc_fetch_add", "pc_fetch_sub", "pc_skip_sub", "run", "ret", "nop", "poll_enter", "poll_wait_short",
                 "poll_wait_full", "poll_leave"}
 
@@ -119,6 +119,8 @@ def oracle(case, line):
     snap = [None] * n  # (id, set(uids), own, used_handshake)
     cw_in_cb = {}      # uid -> ids on which the callback itself has begun a cancel-and-wait (mutual cancel)
     final = {}         # uid -> klass of the cancel-wait that finalised it
+    final_at = {}      # uid -> index of the step in which that cancel-and-wait returned
+    last_check = {}    # thread -> index of its latest pc_fetch_add step (the generation check of the callback it runs next)
     pending_post = [None] * n
     interrupted = set()
     nids = int(case.split()[1])
@@ -127,8 +129,10 @@ def oracle(case, line):
     state_now = [0] * n
     qs_now = [(0, 0, False, False)] * n
     queued_at_enter = {}
-    for st in steps:
+    for sidx, st in enumerate(steps):
         t, label, evs = st["t"], st["label"], st["evs"]
+        if label == "pc_fetch_add":
+            last_check[t] = sidx
         words_prev, words = words, st["words"]
         state_prev, state_now = state_now, st["state"]
         qs_prev, qs_now = qs_now, st["qs"]
@@ -173,7 +177,14 @@ def oracle(case, line):
                 if u in info and int(th) != info[u]["tgt"]:
                     bad.append(("wrong-thread", "callback %s ran on thread %s, posted to %d" % (u, th, info[u]["tgt"])))
                 if u in final:
-                    bad.append((final[u], "callback %s ran after a cancel-and-wait on its id, begun after its post returned, had returned" % u))
+                    kl = final[u]
+                    if kl != "cancel-final" and last_check.get(t, -1) > final_at.get(u, len(steps)):
+                        # every path of the two-argument form raises the generation before it returns; the known defect of
+                        # its handshake only concerns callbacks that had ALREADY passed their generation check when the
+                        # call returned. This one passed its check afterwards.
+                        bad.append(("cancel-final", "callback %s passed its generation check and ran AFTER a two-argument cancel_callback_and_wait on its id, begun after its post returned, had returned" % u))
+                    else:
+                        bad.append((kl, "callback %s ran after a cancel-and-wait on its id, begun after its post returned, had returned" % u))
                 if u in info:
                     key = (u.split(".")[0], info[u]["tgt"], info[u]["kind"])
                     seq = int(u.split(".")[1])
@@ -200,6 +211,7 @@ def oracle(case, line):
                         bad.append((kl, "callback %s (post returned before the call) is still running when cancel_callback_and_wait returned on thread %d" % (u, t)))
                     if final.get(u) != "cancel-final":
                         final[u] = kl
+                        final_at.setdefault(u, sidx)
                 snap[t] = None
         if label.startswith("dl_") and snap[t] is not None:
             snap[t][3] = True
